@@ -110,6 +110,7 @@ Proof.
     specialize (Hw eq_refl). cbn. rewrite ?El, ?Ecl, ?Hw. cbn. rewrite Nat.eqb_refl. cbn. rewrite ?Hw. auto.
   - (* end_cleanup *) intros s0 fs0 Hw. cbn. split; [reflexivity|]. intros H; discriminate.
   - (* note_skip: neither the frame nor the trace changes *) intros s0 fs0 Hw. cbn. split; [reflexivity|exact Hw].
+  - (* note_ood: likewise *) intros s0 fs0 Hw. cbn. split; [reflexivity|exact Hw].
   - (* failOnError *) apply br_still. intros s0. unfold failOnError. destruct (failed (ts s0)); split; reflexivity.
   - (* drawBits *) apply br_still. intros s0. unfold drawBits.
     destruct (src s0) as [[|x l]|j]; [| |destruct (Nat.leb n 64); [destruct (jsf_rand j)|]]; split; reflexivity.
